@@ -57,7 +57,10 @@ def main():
     # a mutable default argument is shared state: writing to it is outside an empty frame
     eng.contracts[S + "default_bad"] = dict(params={"x": "int"}, returns="int", ensures="result >= 1", modifies=[],
                                             file="selftest")
-    expect = {"default_bad": False, "chain_ok": True, "chain_bad": False, "append_ok": True, "append_bad": False, "count_ok": True, "count_bad": False, "mod_ok": True, "idx_bad": False, "tail_ok": True}
+    # bytes never equal str (the engine once compared them by content)
+    eng.contracts[S + "bytes_vs_str"] = dict(params={"b": "bytes"}, returns="bool", ensures="result == True",
+                                             modifies=[], file="selftest")
+    expect = {"bytes_vs_str": True, "default_bad": False, "chain_ok": True, "chain_bad": False, "append_ok": True, "append_bad": False, "count_ok": True, "count_bad": False, "mod_ok": True, "idx_bad": False, "tail_ok": True}
     rc = 0
     for name, want in sorted(expect.items()):
         r = eng.verify(S + name)
